@@ -157,14 +157,59 @@ def run(ctx):
 
 
 def online(ctx):
-	""" Messages the simulator really encodes are re-parsed as they leave. """
+	""" Messages the simulator really encodes are re-parsed as they leave: Msg.gen_msg is
+	    wrapped while a compact forwarding scenario runs (realistic RSSI/ToA, detected TSC,
+	    NOPE indications, legacy padding as the transceiver applies it). """
+	from vf import radio
+	from vf.ref import tsc as tscref
+	dm = msgs.data_msg
+	real_gen = dm.Msg.gen_msg
+	seen = []
+
+	def wrapped(self, legacy = False):
+		data = real_gen(self, legacy)
+		seen.append((msgs.from_real(self), legacy, bytes(data), type(self)))
+		return data
+	r = ctx.rng("online")
+	dm.Msg.gen_msg = wrapped
 	try:
-		from vf import sim
-	except ImportError:
-		return
-	if not hasattr(sim, "online_roundtrip_workload"):
-		return
-	sim.online_roundtrip_workload(ctx, roundtrip)
+		for cfg in range(ctx.scale(40, 2000)):
+			bench = radio.Bench(r.getrandbits(30), [{"base_port": 5700}, {"base_port": 6700}])
+			for i, (rx, tx) in enumerate([(890000, 935000), (935000, 890000)]):
+				for c in ("RXTUNE %d" % rx, "TXTUNE %d" % tx, "SETFORMAT %d" % r.choice((0, 1)), "POWERON",
+						"FAKE_TOA %d %d" % (r.randint(-500, 500), r.choice((0, 20))), "FAKE_CI %d %d" % (r.randint(-100, 300), r.choice((0, 9)))):
+					bench.cmd(i, c)
+			if r.random() < 0.3:
+				bench.cmd(r.randrange(2), "FAKE_DROP %d" % r.randint(1, 5))
+			if r.random() < 0.2:
+				bench.cmd(r.randrange(2), "RFMUTE 1")
+			for b in range(20):
+				s = r.randrange(2)
+				kind = r.choice(("NB", "SB", "AB", "rnd", "edge"))
+				bits = trxd.rand_bits(r, 444) if kind == "edge" else trxd.rand_bits(r, 148) if kind == "rnd" \
+					else tscref.place(kind, r.choice(sorted(tscref.TABLES[kind])), r)
+				m = {"dir": "tx", "ver": bench.models[s].ver, "fn": trxd.rand_fn(r), "tn": r.randrange(8),
+				     "pwr": r.choice((0, 5, 13)), "bits": bits}
+				bench.transmit(s, m)
+	finally:
+		dm.Msg.gen_msg = real_gen
+	for (fields, legacy, data, cls) in seen:
+		new = cls()
+		try:
+			new.parse_msg(bytearray(data))
+		except Exception as e:
+			ctx.violation("online", {"msg": trxd.brief(fields), "legacy": legacy},
+				what = "a datagram the simulator really sent does not parse back: %s" % e)
+			return
+		d = msgs.diff(fields, msgs.from_real(new))
+		ctx.count("simulator_origin_roundtrips")
+		ctx.count("simulator_origin:%s%s" % ("nope" if fields.get("nope") else "burst", "/legacy" if legacy else ""))
+		ctx.seen(trxd.key(fields, legacy))
+		if d:
+			ctx.violation("online", {"msg": trxd.brief(fields), "legacy": legacy, "decoded": trxd.brief(msgs.from_real(new))},
+				what = "a message the simulator really sent differs after decode(encode(m)): %s" % ",".join(d))
+			return
+	ctx.require("simulator_origin_roundtrips", 200)
 
 
 def replay(ctx, data):
